@@ -15,6 +15,7 @@ func init() {
 	verifHarnesses["VerifC09InsertPointQuick"] = VerifC09InsertPointQuick
 	verifHarnesses["VerifC09InsertPointThorough"] = VerifC09InsertPointThorough
 	verifHarnesses["VerifC09InsertPointSynthetic"] = VerifC09InsertPointSynthetic
+	verifHarnesses["VerifC09InsertPointNear"] = VerifC09InsertPointNear
 }
 
 // verifGrid describes the expected integer grid of a tile matrix set at a deepest id, derived from public API only:
@@ -69,20 +70,22 @@ func verifMaxID(tms tms20.TileMatrixSet) int {
 
 // verifC09Body: for one grid, a point given by its internal integer coordinates (X,Y), anywhere outside the extent
 // or within `win` pixels of a border inside it: accepted <=> inside, and never accepted when outside.
-func verifC09Body(tms tms20.TileMatrixSet, id int, win int64) {
+func verifC09Body(tms tms20.TileMatrixSet, id int, win int64) { verifC09BodyFar(tms, id, win, int64(1)<<61) }
+
+// verifC09BodyNear: only points within win pixels of the borders (a finite set of pixel addresses per axis)
+func verifC09BodyNear(tms tms20.TileMatrixSet, id int, win int64) { verifC09BodyFar(tms, id, win, 0) }
+
+func verifC09BodyFar(tms tms20.TileMatrixSet, id int, win int64, far int64) {
 	g := verifGridOf(tms, id)
 	verifAssume(g.level <= 32) // deeper levels cannot be keyed (Morton range), see C06
 	ix, err := FromTileMatrixSet(tms, id)
 	verifAssert(err == nil, "C09.O1.index-built")
-	const far = int64(1) << 61
-	// the floats handed to the API; X, Y are their internal integer coordinates (float step abstracted, see API)
-	fx := verifFloatOfInt1e10(verifNondetInt("X", -far, far))
-	fy := verifFloatOfInt1e10(verifNondetInt("Y", -far, far))
+	// the floats handed to the API; X, Y are their internal integer coordinates (float step abstracted, see API).
+	// Each ordinate is either within `win` pixels of one of the two borders of its axis (inside or outside: the pixel
+	// address is case-split there), or arbitrarily far outside (|c| < 2^61).
+	fx := verifFloatOfInt1e10(verifC09Ordinate("X", g.minX, g.res, g.size, win, far))
+	fy := verifFloatOfInt1e10(verifC09Ordinate("Y", g.minY, g.res, g.size, win, far))
 	X, Y := intgeom.FromGeomOrd(fx), intgeom.FromGeomOrd(fy)
-	// inside points only in the corner blocks of win x win pixels (the pixel address is case-split there)
-	nearX := X < g.minX+win*g.res || X >= g.minX+(g.size-win)*g.res
-	nearY := Y < g.minY+win*g.res || Y >= g.minY+(g.size-win)*g.res
-	verifAssume(nearX && nearY)
 	pt := geom.Point{fx, fy}
 	insErr := ix.InsertPoint(pt)
 	insideGrid := X >= g.minX && X < g.minX+g.size*g.res && Y >= g.minY && Y < g.minY+g.size*g.res
@@ -97,6 +100,23 @@ func verifC09Body(tms tms20.TileMatrixSet, id int, win int64) {
 		var og OutsideGridError
 		verifAssert(errors.As(insErr, &og), "C09.O1.error-type")
 	}
+}
+
+// verifC09Ordinate: kind 0/1 = within win pixels of the low/high border (either side), 2/3 = far below/above.
+func verifC09Ordinate(name string, min, res, size, win, far int64) int64 {
+	kinds := int64(3)
+	if far == 0 {
+		kinds = 1
+	}
+	switch verifConcretizeInt(int(verifNondetInt(name+".kind", 0, kinds))) {
+	case 0:
+		return min + verifNondetInt(name, -win*res, win*res-1)
+	case 1:
+		return min + size*res + verifNondetInt(name, -win*res, win*res-1)
+	case 2:
+		return verifNondetInt(name, -far, min-win*res-1)
+	}
+	return verifNondetInt(name, min+(size+win)*res, far)
 }
 
 func VerifC09InsertPointQuick() {
@@ -119,6 +139,16 @@ func VerifC09InsertPointThorough() {
 }
 
 // synthetic grids with non-zero (negative and positive) origins, as in the repo's tests but shifted
+// the same grids, but only points within two pixels of a border (either side): every pixel address is case-split,
+// so this terminates whatever arithmetic the range check uses
+func VerifC09InsertPointNear() {
+	ox := []float64{0, -8, 3.5, 100000}[verifConcretizeInt(int(verifNondetInt("ox", 0, 3)))]
+	oy := []float64{0, -8, 3.5, -250000.25}[verifConcretizeInt(int(verifNondetInt("oy", 0, 3)))]
+	deepest := verifConcretizeInt(int(verifNondetInt("deepest", 0, 2)))
+	tms := verifSyntheticTMS(deepest, ox, oy)
+	verifC09BodyNear(tms, deepest, 2)
+}
+
 func VerifC09InsertPointSynthetic() {
 	ox := []float64{0, -8, 3.5, 100000}[verifConcretizeInt(int(verifNondetInt("ox", 0, 3)))]
 	oy := []float64{0, -8, 3.5, -250000.25}[verifConcretizeInt(int(verifNondetInt("oy", 0, 3)))]
